@@ -41,6 +41,14 @@ def cells_of_spec(spec):
 
 def flagged_spec(rootname, unc):
     spec = copy.deepcopy(ROOTS[rootname]["spec"])
+
+    def all_cached(d):
+        for sd in d.values():
+            for cn, cd in list(sd.get("cells", {}).items()):
+                if isinstance(cd, dict) and cd.get("cached") is False:
+                    cd["cached"] = True
+            all_cached(sd.get("spaces", {}))
+    all_cached(spec["spaces"])      # the flag assignment under test is given by `unc` alone
     for path, cn in unc:
         sd = spec["spaces"]
         parts = path.split(".")
@@ -91,10 +99,14 @@ def run(rootname, unc, hist, twin, warm=False):
             viols.extend(uncached_checks(m, p, ob, log))
     if not twin:
         # uncached cells never hold values
+        from mxmc.session import safe
         for s in walk_spaces(m):
             for n, c in s.cells.items():
-                if not c.is_cached and len(c) != 0:
-                    viols.append(("no-hold", {"cells": space_path(s) + "." + n, "len": len(c)}, 0))
+                st = safe(lambda: (bool(c.is_cached), len(c)))
+                if isinstance(st, str):
+                    viols.append(("broken", {"cells": space_path(s) + "." + n, "error": st}, "readable flag / length"))
+                elif not st[0] and st[1] != 0:
+                    viols.append(("no-hold", {"cells": space_path(s) + "." + n, "len": st[1]}, 0))
     return canon, obs, edit_obs, probes, viols
 
 
